@@ -165,7 +165,12 @@ def apply(t, p, how="by-name"):
     if how == "vector":
         for vec in (t.params, t.constants):
             if vec.nval and all(str(n) in p for n in vec.names):
-                vec.values = [p[str(n)] for n in vec.names]
+                # given as a float64 array that the caller then reuses for
+                # something else
+                arr = np.array([p[str(n)] for n in vec.names],
+                               dtype=np.float64)
+                vec.values = arr
+                arr[:] = np.nan
             else:
                 for n in vec.names:
                     if str(n) in p:
@@ -183,7 +188,7 @@ def getp(t, name):
 
 
 # ------------------------------------------------------------- domain points
-def points(t, case, setting, abs_guard=True):
+def points(t, case, setting, abs_guard=True, manly_low=-13.8):
     """Domain points for the current parameter values of t.
 
     Returns dict with
@@ -327,12 +332,14 @@ def points(t, case, setting, abs_guard=True):
                         loc=np.full(len(u), xmax), lab=lab)
         # t = lam*x/xmax from -13.8 (the map flattens towards -1/lam) to
         # 600 (exp overflows beyond 709)
-        t = np.where(u < 0, u * 13.8, u * 600.)
+        # (manly_low: the Jacobian exp(t)/xmax stays positive far below
+        # the point where forward flattens; used by C02 only)
+        t = np.where(u < 0, -u * manly_low, u * 600.)
         v = t / lam
         lab.append("manly:lam*x>13.8" if (t > 13.8).any()
                    else "manly:lam*x<=13.8")
         return dict(x=v * xmax, sx=np.abs(v * xmax) + xmax / abs(lam),
-                    loc=np.full(len(u), xmax / abs(lam)), lab=lab)
+                    loc=np.full(len(u), xmax / abs(lam)), lab=lab, t=t)
 
     if cls == "Softmax":
         raw = np.exp(math.log(1e-6) * (1 - np.asarray(setting["u"],
